@@ -14,3 +14,25 @@ package snacl
 //@   requires has-key: sk.Key != nil
 //@   modifies sk.Key[*]
 //@   ensures zeroed: keyZero(sk)
+
+// DeriveKey returns nil only after the constant-time comparison of sha256(derived key) with the stored digest
+// came out equal. deriveOK / deriveKeyOf record the outcome for callers (definitional ghost updates).
+//@ ghost deriveOK bool
+//@ ghost deriveKeyOf int
+//@ func (*SecretKey).deriveKey
+//@   requires sk.Key != nil && password != nil
+//@   modifies sk.Key[*]
+//@ func (*SecretKey).Unmarshal
+//@   modifies deep(sk)
+//@   ensures err == nil ==> sk.Key != nil
+//@ func (*SecretKey).DeriveKey
+//@   requires sk.Key != nil && password != nil
+//@   modifies sk.Key[*], lastCT, lastCTA, lastCTB
+//@   assert-at return nil-only-if-digest-matches: result == nil ==> lastCT == 1 && lastCTB == bytesval(sk.Parameters.Digest)
+//@   sets deriveOK = err == nil
+//@   sets deriveKeyOf = sk
+
+//@ func NewSecretKey
+//@   requires password != nil
+//@   modifies nothing
+//@   ensures err == nil ==> result0 != nil && fresh(result0) && result0.Key != nil && fresh(result0.Key)
